@@ -10,7 +10,7 @@ use serde_json::json;
 pub fn prop() -> Prop {
   Prop {
     id: "C16",
-    rule: "case = (producer: interval(p) on the virtual scheduler, from_iter over a counting iterator of 40 items, from_stream over a counting stream of 40 ready items; 0..3 intermediate operators that do not end the stream themselves (take(30+), take_while(true), skip_last, map, filter, tap, scan, skip, skip_while, start_with, distinct_until_changed, pairwise, buffer_with_count, finalize, box_it, on_complete, default_if_empty, on_error_map, complete_status); an early-terminating operator: take(n>=1), first, element_at, take_while, contains, all, take_until(hot notifier); the producer chain either is the main input of the cutter or sits in the second (notifier/other) position of merge / zip / combine_latest / with_latest_from / sample / buffer / skip_until / take_until whose main input is a scripted hot input, with the cutter on top; local and thread-safe builds; script of <= 10 emissions / clock advances). \
+    rule: "case = (producer: interval(p) on the virtual scheduler, from_iter over a counting iterator of 40 items, from_stream over a counting stream of 40 ready items; 0..3 intermediate operators that do not end the stream themselves (take(30+), take_while(true), skip_last, map, filter, tap, scan, skip, skip_while, start_with, distinct_until_changed, pairwise, buffer_with_count, finalize, box_it, on_complete, default_if_empty, on_error_map, complete_status); an early-terminating operator: take(n>=1), first, element_at, take_while, contains, all, take_until(hot notifier); the producer chain either is the main input of the cutter or sits in the second (notifier/other) position of merge / zip / combine_latest / with_latest_from / sample / buffer / skip_until / take_until whose main input is a scripted hot input, with the cutter on top; local and thread-safe builds; script of <= 10 emissions / clock advances; one case in eight ends the stream late: producers of 160 items, take / element_at / take_while at 33..120, clock advances of 20..80 ticks). \
            Oracle (applied when the subscriber received its terminal): running the scheduler until idle terminates - after at most (number of periodic producers) further timer firings no timer is pending and no scheduled task is alive; a counting iterator is asked for at most one more item after the terminal; a counting stream is polled at most once more. Non-trivial: the terminal was caused by the cutter (not by the producer running out) and there is >= 1 intermediate operator or the producer is in notifier position. Distinct by hash(case).",
     assumptions: &["iterators and streams are bounded (40 items) so that a producer that is not stopped shows up as extra pulls, not as a hang"],
     parts: vec![Part { name: "producers", run: run_case, tape_len: 64, quick_cases: 600_000, thorough_cases: 12_000_000, exhaustive_depth: None, exhaustive_budget: 0, exh_quick: false }],
@@ -64,10 +64,21 @@ fn gen_cutter(c: &mut dyn Choices) -> Un {
 }
 
 fn gen_case(c: &mut dyn Choices) -> Case {
+  let case = gen_case_with(c, false);
+  // (appended picks, recorded tapes keep their meaning) one case in eight ends the stream late instead:
+  // after 33..120 items / ticks, with producers of 160 items and clock advances of 20..80 ticks
+  if c.pick(8) == 7 {
+    gen_case_with(c, true)
+  } else {
+    case
+  }
+}
+
+fn gen_case_with(c: &mut dyn Choices, late: bool) -> Case {
   let producer = match c.pick(4) {
-    0 | 1 => Src::Interval(1 + c.pick(3) as u64),
-    2 => Src::CountingIter(40),
-    _ => Src::CountingStream(40),
+    0 | 1 => Src::Interval(1 + c.pick(if late { 2 } else { 3 }) as u64),
+    2 => Src::CountingIter(if late { 160 } else { 40 }),
+    _ => Src::CountingStream(if late { 160 } else { 40 }),
   };
   let n_mid = c.pick(4);
   let mut chain = Node::Src(producer.clone());
@@ -81,6 +92,14 @@ fn gen_case(c: &mut dyn Choices) -> Case {
       // main input of the cutter
       if c.pick(5) == 0 {
         (Node::Bin(Bin::TakeUntil, c.flag(), Box::new(chain), Box::new(hot)), None)
+      } else if late {
+        let n = 33 + c.pick(88);
+        let cutter = match c.pick(3) {
+          0 => Un::Take(n),
+          1 => Un::ElementAt(n),
+          _ => Un::TakeWhile(Pred::Lt(n as i64)),
+        };
+        (Node::Un(cutter, false, Box::new(chain)), None)
       } else {
         (Node::Un(gen_cutter(c), false, Box::new(chain)), None)
       }
@@ -89,7 +108,13 @@ fn gen_case(c: &mut dyn Choices) -> Case {
       let op = gen_bin(c);
       let tf = c.pick(3) == 0;
       let bin = Node::Bin(op, tf, Box::new(hot), Box::new(chain));
-      let node = if op == Bin::TakeUntil && c.flag() { bin } else { Node::Un(gen_cutter(c), false, Box::new(bin)) };
+      let node = if op == Bin::TakeUntil && c.flag() {
+        bin
+      } else if late {
+        Node::Un(Un::Take(33 + c.pick(88)), false, Box::new(bin))
+      } else {
+        Node::Un(gen_cutter(c), false, Box::new(bin))
+      };
       (node, Some(op))
     }
   };
@@ -101,7 +126,7 @@ fn gen_case(c: &mut dyn Choices) -> Case {
       script.push(Step::Emit(0, Ev::N(V::I(id % 4))));
       id += 1;
     } else {
-      script.push(Step::Advance(1 + c.pick(3) as u64));
+      script.push(Step::Advance(if late { 20 + c.pick(60) as u64 } else { 1 + c.pick(3) as u64 }));
     }
   }
   Case { producer, notifier_pos, n_mid, pcase: PCase { node, kinds: vec![IKind::Subject], script, mode: SchedMode::Fifo, threads: c.pick(3) == 0 } }
